@@ -28,6 +28,10 @@ def encodings(rng):
         "strings of different lengths": lambda c, t: ("1", "1") if t == 0 else pick(["1", "10", "11", "cat", "catalogue"], c),
         "int first, floats later": lambda c, t: (1, 1) if t == 0 else pick([1, 1.25, 1.75, 2.5], c),
         "bool first, ints later": lambda c, t: (True, True) if t == 0 else pick([True, 2, 3, 0], c),
+        # the two labels arrive in containers of different dimensionality
+        "1x1 array vs scalar": lambda c, t: (lambda a, b: (np.array([[a]]), b))(*pick([4, 9, 11], c)),
+        "scalar vs nested list": lambda c, t: (lambda a, b: (a, [[b]]))(*pick(["u", "v", "w"], c)),
+        "1x1 frame vs 1-d array": lambda c, t: (lambda a, b: (pd.DataFrame({"y": [a]}), np.array([b])))(*pick([0, 1, 2], c)),
     }
 
 
